@@ -13,8 +13,9 @@ use crate::Body;
 
 /// A specific handler key.
 ///
-/// This is in the format of (service_name, handler_path).
-pub type HandlerKey = u64;
+/// This is the request path of the handler: `/service_name/handler_path`,
+/// the path itself rather than a hash of it, two paths never share a key.
+pub type HandlerKey = String;
 
 /// A registry system used for linking a service's message handlers
 /// with the RPC system at runtime.
@@ -120,7 +121,7 @@ where
         };
 
         let uri = crate::to_uri_path(Svc::service_name(), <Svc as Handler<Msg>>::path());
-        self.handlers.insert(crate::hash(&uri), Arc::new(phantom));
+        self.handlers.insert(uri, Arc::new(phantom));
     }
 }
 
